@@ -366,6 +366,20 @@ def _r3_planned_evidence(ctx, rep) -> None:
                   f"recovery pushes StartTask when `{cond}`; `{ev_attr}` is assigned at line {before_claim[0].lineno if before_claim else '-'} BEFORE the claim transaction, so the claim-only state of a stage with predefined tasks "
                   "(RUNNING, start_time set, tasks NOT_STARTED) already satisfies it: after a kill between claim and plan the first task is started on an unplanned stage (no merged upstream context)" if not ok else "ok",
                   sir.file, before_claim[0].lineno if before_claim else sir.node.lineno, disc=f"evidence:{ev_attr}")
+        # The other half of the same window: SOMETHING must carry a stage on that was claimed but not planned. Recovery tests the
+        # evidence; without it, it pushes StartStage, and StartStage re-plans a RUNNING stage only when it has no task and no synthetic
+        # child. For a stage with predefined tasks the window is therefore survivable only if (a) the claim commit writes the
+        # evidence (recovery then starts the first task - unplanned, the open finding above), or (b) StartStage's duplicate test
+        # for a RUNNING stage looks at the evidence too (re-plan when it is missing).
+        from ..dom import raw_conditions_at
+        ignores = [r for r in ast.walk(sir.node) if isinstance(r, ast.Return) and r.value is None and any("stage.status == WorkflowStatus.RUNNING" in norm(t) and tr for t, tr in raw_conditions_at(sir.node, r))]
+        handler_looks = any(ev_attr in norm(t) for r in ignores for t, tr in raw_conditions_at(sir.node, r)) or any(
+            isinstance(a, ast.Assign) and norm(a.targets[0]) in ("has_tasks", "planned") and ev_attr in norm(a.value) for a in ast.walk(sir.node))
+        survivable = bool(before_claim) or handler_looks
+        rep.check(survivable, "C01.R3", "a stage with predefined tasks survives a kill between its claim and plan commits",
+                  ("the claim commit writes the evidence: recovery starts the first task" if before_claim else "StartStage's RUNNING-duplicate test consults the evidence and re-plans") if survivable else
+                  f"`{ev_attr}` is not durable after the claim commit, so recovery (`{cond}` false) pushes StartStage; StartStage drops it for a RUNNING stage that has tasks (zombie re-plan only for task-less stages): "
+                  "stage RUNNING, tasks NOT_STARTED, queue empty for good", sir.file, (writes[0].lineno if writes else sir.node.lineno), disc=f"claim-window:{ev_attr}")
 
 
 def _r4_zombie(ctx, rep, res) -> None:
@@ -408,3 +422,48 @@ def _r5_queue(ctx, rep) -> None:
     sqlshape.rule_lock_visibility(ctx, rep, "C01.R5")
     sqlshape.rule_queue_deleters(ctx, rep, "C01.R5")
     sqlshape.rule_ack_after_handle(ctx, rep, "C01.R5")
+    # every new queue row gets an identity of its own. queue_messages.message_id is UNIQUE; a handler may push the very message
+    # object it is handling again (a polling task re-queues its RunTask). If the row id were taken from that object, a redelivery
+    # after a crash (old re-push still queued) collides: IntegrityError, the healthy task is failed TERMINAL.
+    import re as _re
+    prog = ctx.prog
+    msg_cls = prog.cls("stabilize.queue.messages", "Message")
+    msg_fields = {st.target.id for st in msg_cls.node.body if isinstance(st, ast.AnnAssign) and isinstance(st.target, ast.Name)}
+    qins = [s_ for s_ in sqlshape.statements(prog) if s_.kind == "INSERT" and "message_id" in s_.cols and "payload" in s_.cols and "dlq" not in s_.table.lower() and (rep.tier == "thorough" or sqlshape.is_sqlite(s_))]
+    rep.floor("INSERTs into the queue table (row identity)", len(qins), 2)
+    for s_ in qins:
+        v = s_.vals[s_.cols.index("message_id")].strip()
+        m_ = _re.match(r"[:%]\(?(\w+)\)?s?$", v)
+        bound = s_.params.get(m_.group(1)) if m_ else None
+        if bound is None and m_ and "*" in s_.params:
+            # parameters passed as a local dict variable: look the key up in its literal definition
+            for a in ast.walk(s_.func.node):
+                if isinstance(a, ast.Assign) and len(a.targets) == 1 and norm(a.targets[0]) == str(s_.params["*"]) and isinstance(a.value, ast.Dict):
+                    for k_, v_ in zip(a.value.keys, a.value.values):
+                        if isinstance(k_, ast.Constant) and k_.value == m_.group(1):
+                            bound = norm(v_)
+        expr = None
+        if bound is not None:
+            try:
+                expr = ast.parse(str(bound), mode="eval").body
+            except SyntaxError:
+                expr = None
+        # resolve a local name to its single definition in the function
+        for _ in range(3):
+            if isinstance(expr, ast.Name):
+                defs = [a for a in ast.walk(s_.func.node) if isinstance(a, ast.Assign) and len(a.targets) == 1 and norm(a.targets[0]) == expr.id]
+                expr = defs[-1].value if defs else None
+        inherited = []
+        fresh = False
+        if expr is not None:
+            for n in ast.walk(expr):
+                if isinstance(n, ast.Call) and norm(n.func).split(".")[-1] in ("uuid4", "uuid1", "ULID", "new_ulid", "uuid7"):
+                    fresh = True
+                if isinstance(n, ast.Attribute) and isinstance(n.value, ast.Name) and n.value.id in ("message", "msg") and n.attr in msg_fields:
+                    inherited.append(n.attr)
+                if isinstance(n, ast.Call) and norm(n.func) == "getattr" and len(n.args) >= 2 and isinstance(n.args[1], ast.Constant) and n.args[1].value in msg_fields and norm(n.args[0]) in ("message", "msg"):
+                    inherited.append(n.args[1].value)
+        ok = fresh and not inherited
+        rep.check(ok, "C01.R5", f"{s_.func.qualname}: a pushed message gets a fresh row identity", f"message_id <- `{norm(expr) if expr is not None else v}`" + ("" if ok else
+                  (f": taken from the pushed object's field {inherited} - a handler that re-queues the message it is handling inserts a second row with the same UNIQUE message_id; after a crash before the ack the redelivered "
+                   "copy collides with the first re-push (IntegrityError) and the healthy task is failed" if inherited else ": no fresh id is generated")), s_.file, s_.line, disc=f"fresh-row-id:{s_.func.qualname}")
